@@ -22,6 +22,7 @@ Line protocol of the C07 model (see harness/src/props/c07.rs):
 * `pos_enc <deltas>` → hex; `pos_read <hex> <offset> <len>` → values | `err`
 * `blocksearch <values> <target>` → index
 * `invert_json <opt> <docs separated by ; and events by slash: <pathhex>~T~<tokens> | <pathhex>~N~<termhex>>` → `<terms>|<total_num_tokens>`
+* `pipeline_remap <opt> <new ids, comma separated, indexed by old id> <corpus>` → `<terms>|<total>` through the doc_id_map branch of Recorder::serialize
 * `pipeline <opt> <corpus>` → same format as `invert`, computed through recorders → serializer → decoder
 * `invert <opt> <corpus>` → `<terms>|<total_num_tokens>|<fieldnorm ids>`
 -/
@@ -131,6 +132,23 @@ def handlePipeline (o : String) (corpus : String) : String :=
     ++ "|" ++ toString ix.totalNumTokens ++ "|" ++
     showNatList (c.map (fun d => FieldNorm.fieldnormId (Recorder.docTokenCount o d)))
   | _, _ => "bad-op"
+
+/-- the `doc_id_map` branch: index the corpus in arrival order, serialize with the doc ids mapped
+through `newIds` (old id ↦ new id) -/
+def handlePipelineRemap (o : String) (ids : String) (corpus : String) : String :=
+  match parseOpt o, natList ids, parseCorpus corpus with
+  | some o, some ids, some c =>
+    let ix := Recorder.indexCorpus o c
+    let newId : Nat → Nat := fun d => ids.getD d d
+    let entries := (termsOf Gen.Postings.POSITION_GAP c).map (fun t =>
+      match ix.table t with
+      | none => (hexOfNats t).getD "bad" ++ "=missing"
+      | some r =>
+        match Recorder.readBack o (Recorder.serializeTermRemapped o r newId) with
+        | none => (hexOfNats t).getD "bad" ++ "=unreadable"
+        | some ps => (hexOfNats t).getD "bad" ++ "=" ++ ",".intercalate (ps.map showPosting))
+    (if entries.isEmpty then "-" else ";".intercalate entries) ++ "|" ++ toString ix.totalNumTokens
+  | _, _, _ => "bad-op"
 
 def handle : List String → String
   | ["ping"] => "pong"
@@ -250,6 +268,7 @@ def handle : List String → String
   | ["invert", o] => handleInvert o ""
   | ["invert_json", o, corpus] => handleInvertJson o corpus
   | ["invert_json", o] => handleInvertJson o ""
+  | ["pipeline_remap", o, ids, corpus] => handlePipelineRemap o ids corpus
   | ["pipeline", o, corpus] => handlePipeline o corpus
   | ["pipeline", o] => handlePipeline o ""
   | _ => "bad-op"
